@@ -129,7 +129,7 @@ func (e *Expression) Evaluate(subject Evaluable) bool {
 	case Equals:
 		result = ok && (value == e.Values[0] || e.Values[0] == "*")
 	case NotEqual:
-		result = !ok || value != e.Values[0]
+		result = !ok || (value != e.Values[0] && e.Values[0] != "*")
 	case Matches, MatchesNot:
 		match := false
 		if ok {
